@@ -431,6 +431,28 @@ def kernel_functions(ctx, repo):
         calls = [c for c in ast.walk(fd) if isinstance(c, ast.Call) and ast.unparse(c.func).split(".")[-1] == "aggregate"]
         if not calls:
             raise AnalysisError(f"{name}: no aggregate call found; S-kernel needs a re-read")
+        # hand-written scatter reductions (ufunc.at) need an identity element per dtype - zeros are not the identity of
+        # max over dates or negative numbers; the kernels delegate every reduction to numpy_groupies
+        allocs = {}
+        for st in ast.walk(fd):
+            if isinstance(st, ast.Assign) and len(st.targets) == 1 and isinstance(st.targets[0], ast.Name) and isinstance(st.value, ast.Call):
+                allocs[st.targets[0].id] = st.value
+        IDENTITY = {"add": ("zeros", "zeros_like"), "logical_or": ("zeros", "zeros_like"), "multiply": ("ones", "ones_like"), "logical_and": ("ones", "ones_like")}
+        for c in ast.walk(fd):
+            if isinstance(c, ast.Call) and isinstance(c.func, ast.Attribute) and c.func.attr == "at" and isinstance(c.func.value, ast.Attribute) and c.args and isinstance(c.args[0], ast.Name):
+                uf = c.func.value.attr
+                al = allocs.get(c.args[0].id)
+                alname = ast.unparse(al.func).split(".")[-1] if al is not None else None
+                if uf in IDENTITY:
+                    good = alname in IDENTITY[uf]
+                elif uf in ("maximum", "minimum", "fmax", "fmin"):
+                    fill = al.args[1] if (al is not None and alname in ("full", "full_like") and len(al.args) > 1) else None
+                    good = fill is not None and ("inf" in ast.unparse(fill) or "iinfo" in ast.unparse(fill) or "finfo" in ast.unparse(fill) or "min(" in ast.unparse(fill) or "max(" in ast.unparse(fill))
+                else:
+                    continue
+                ctx.ob("S-kernel", ok=good, distinct=(name, c.lineno))
+                if not good:
+                    ctx.violation("S-kernel", f"{name}|{ast.unparse(c.func)}", an.loc(c) + f" {name}", f"{name} reduces by hand with `{ast.unparse(c.func)}` into a buffer created by `{ast.unparse(al)[:50] if al is not None else '?'}`, which is not the identity element of that reduction (zeros = 1970-01-01 for dates, 0 for numbers): the initial fill takes part in the {k}, so a group whose members all lie on the other side of it gets a value no member has")
         for c in calls:
             f = next((kw.value for kw in c.keywords if kw.arg == "func"), c.args[2] if len(c.args) > 2 else None)
             fv = f.value if isinstance(f, ast.Constant) else None
